@@ -10,9 +10,11 @@ import (
 	"net"
 	"net/http"
 	"net/url"
+	"runtime"
 	"slices"
 	"strings"
 	"sync"
+	"sync/atomic"
 	"time"
 
 	"github.com/c2FmZQ/ech"
@@ -27,7 +29,7 @@ func init() {
 		Rule: "real http.Client over ech.Transport with a local DoH zone, a recording Dialer.DialFunc that connects to a local TLS (h2/http1.1) test server, and a stub HTTP3Transport: URLs (http/https, default and explicit ports, explicit Host header, " +
 			"distinct hosts sharing one address) x HTTPS record sets (0..4 records: priorities incl. alias, ALPN lists over {h3,h2,http/1.1,other}, no-default-alpn, targets, ports, ECH, unique hints) x with/without an HTTP/3 round-tripper " +
 			"x request sequences that could reuse connections. Per request, two runs: enumeration (every attempt fails: the list of dialled targets = the filtered record set) and connection (first attempt succeeds: Host, SNI, connection identity at the server, resp.Request). " +
-			"Observations checked against the Lean plan (plan-check) and Go predicates: no plaintext, upgrade, SNI = URL host, Host = original authority, no connection shared between origins. distinct = (url shape, record-set shape, h3?, path taken).",
+			"Observations checked against the Lean plan (plan-check) and Go predicates: no plaintext, upgrade, SNI = URL host, Host = original authority, no connection shared between origins. Plus a late-dial stream: a dial net/http finishes in the background for a request that was given up, with another origin served meanwhile, is still made for its own origin. distinct = (url shape, record-set shape, h3?, path taken).",
 		Gen: genC19,
 	})
 }
@@ -437,6 +439,140 @@ func genC19(env *core.Env, emit func(core.Case)) {
 			Sample: map[string]any{"has_h3": hasH3, "paths": path, "records_a": shapes[hosts[0]], "requests": nreq}})
 		env.Count(path)
 		tr.HTTPTransport.CloseIdleConnections()
+	}
+	genC19Late(env, emit, zs, ln.Addr().String(), pk)
+}
+
+// genC19Late: a connection that net/http started to dial for origin X reaches the Dialer only after the request
+// that asked for it has been given up and a request for another origin Y has been served in between (net/http
+// lets such a dial finish in the background and parks the connection under X's key). Whenever it happens, the
+// dial made for X is X's: X's address, X's name, X's ECH config list.
+func genC19Late(env *core.Env, emit func(core.Case), zs *zoneh.Server, lnAddr string, pk *testPKI) {
+	// one P: the scheduling (and any per-P caching inside the library) is then the same on every run
+	defer runtime.GOMAXPROCS(runtime.GOMAXPROCS(1))
+	hosts := []string{"a.example", "b.example", "c.example"}
+	u := zoneh.Universe{}
+	for hi, h := range hosts {
+		u[zoneh.Key{Name: h, Type: 1}] = zoneh.Resp{Answers: []zoneh.Ans{{Owner: h, Type: 1, TTL: 60, IP: []byte{10, 7, 0, byte(hi + 1)}}}}
+		u[zoneh.Key{Name: h, Type: 28}] = zoneh.Resp{}
+		u[zoneh.Key{Name: h, Type: 65}] = zoneh.Resp{Answers: []zoneh.Ans{{Owner: h, Type: 65, TTL: 60, HTTPS: &zoneh.HTTPS{Priority: 1, ECH: []byte{byte(hi + 1), 9, 9}}}}}
+	}
+	zs.Set(u)
+	type dcall struct{ addr, sn, ech string }
+	want := func(h string) dcall {
+		hi := slices.Index(hosts, h)
+		return dcall{fmt.Sprintf("10.7.0.%d:443", hi+1), h, core.Hex([]byte{byte(hi + 1), 9, 9})}
+	}
+	for rep, pair := range [][2]string{{"a.example", "b.example"}, {"c.example", "a.example"}, {"b.example", "c.example"}} {
+		x, y := pair[0], pair[1]
+		resolver, err := ech.NewResolver(zs.URL())
+		if err != nil {
+			panic(err)
+		}
+		tr := ech.NewTransport()
+		tr.Resolver = resolver
+		tr.TLSConfig = &tls.Config{RootCAs: pk.pool}
+		dials := make(chan dcall, 16)
+		tr.Dialer.DialFunc = func(ctx context.Context, network, addr string, tc *tls.Config) (*tls.Conn, error) {
+			dials <- dcall{addr, tc.ServerName, core.Hex(tc.EncryptedClientHelloConfigList)}
+			c2 := tc.Clone()
+			c2.EncryptedClientHelloConfigList = nil
+			d := tls.Dialer{Config: c2}
+			c, err := d.DialContext(ctx, "tcp", lnAddr)
+			if err != nil {
+				return nil, err
+			}
+			return c.(*tls.Conn), nil
+		}
+		entered, release := make(chan struct{}), make(chan struct{})
+		var first atomic.Bool
+		orig := tr.HTTPTransport.DialTLSContext
+		tr.HTTPTransport.DialTLSContext = func(ctx context.Context, network, addr string) (net.Conn, error) {
+			if first.CompareAndSwap(false, true) {
+				close(entered)
+				<-release // a dial goroutine that is slow to get going
+			}
+			return orig(ctx, network, addr)
+		}
+		client := &http.Client{Transport: tr}
+		get := func(ctx context.Context, url string) (string, error) {
+			req, _ := http.NewRequestWithContext(ctx, "GET", url, nil)
+			resp, err := client.Do(req)
+			if err != nil {
+				return "", err
+			}
+			defer resp.Body.Close()
+			b, _ := io.ReadAll(resp.Body)
+			return string(b), nil
+		}
+		w := ""
+		note := func(s string) {
+			if w == "" {
+				w = s
+			}
+		}
+		ctx1, cancel1 := context.WithCancel(context.Background())
+		done1 := make(chan error, 1)
+		go func() {
+			_, err := get(ctx1, "https://"+x+"/one")
+			done1 <- err
+		}()
+		path := "late-dial"
+		select {
+		case <-entered:
+		case <-time.After(5 * time.Second):
+			path = "late-dial-not-reached"
+		}
+		cancel1()
+		select {
+		case <-done1:
+		case <-time.After(5 * time.Second):
+			note("a cancelled request did not return")
+		}
+		if path == "late-dial" {
+			if body, err := get(context.Background(), "https://"+y+"/two"); err != nil || body != "ok "+y {
+				note(fmt.Sprintf("request for %s in between: %q %v", y, body, err))
+			}
+			select {
+			case d := <-dials:
+				if d != want(y) {
+					note(fmt.Sprintf("dial for origin %s: %+v, want %+v", y, d, want(y)))
+				}
+			default:
+				note("no dial for " + y)
+			}
+			close(release)
+			select {
+			case d := <-dials:
+				if d != want(x) {
+					note(fmt.Sprintf("the connection net/http dialled in the background for origin %s (request given up, a request for %s served meanwhile) was made as %+v, want %+v", x, y, d, want(x)))
+				}
+			case <-time.After(3 * time.Second):
+				path = "late-dial-abandoned" // net/http chose not to finish it: nothing to check
+			}
+			time.Sleep(50 * time.Millisecond)
+			if body, err := get(context.Background(), "https://"+x+"/three"); err != nil || body != "ok "+x {
+				note(fmt.Sprintf("next request for %s: %q %v", x, body, err))
+			}
+		drain:
+			for {
+				select {
+				case d := <-dials:
+					if d != want(x) {
+						note(fmt.Sprintf("dial for origin %s: %+v, want %+v", x, d, want(x)))
+					}
+				default:
+					break drain
+				}
+			}
+		} else {
+			close(release)
+		}
+		tr.HTTPTransport.CloseIdleConnections()
+		emit(core.Case{Name: fmt.Sprintf("late/%d", rep), Stream: "late-dial", Key: "late-dial/" + x, Sig: path + "/" + x,
+			Ops:    []core.Op{{Kind: 'X', Note: "a dial that outlives its request is still made for its own origin (address, server name, ECH list)", Want: w}},
+			Sample: map[string]any{"paths": path, "x": x, "y": y}})
+		env.Count(path)
 	}
 }
 
